@@ -30,8 +30,13 @@ sys.path.insert(0, os.path.dirname(os.path.abspath(__file__)))
 import harness_cfg  # noqa: E402
 
 VERIF = "/verif"
-REPO = "/repo"
-BUILD = os.path.join(VERIF, ".build")
+# The registered commands always work on /repo and /verif/.build. The two overrides exist only
+# for tuning runs against a scratch worktree while /repo is busy; nothing produced that way is
+# evidence (the evidence file is then written below the scratch build directory).
+REPO = os.environ.get("VERIF_SCRATCH_REPO", "/repo")
+BUILD = os.environ.get("VERIF_SCRATCH_BUILD", os.path.join(VERIF, ".build"))
+SCRATCH = "VERIF_SCRATCH_REPO" in os.environ or "VERIF_SCRATCH_BUILD" in os.environ
+OUT = BUILD if SCRATCH else VERIF  # where evidence/ and replay/ are written
 KANI_TARGET = os.path.join(BUILD, "kani")
 REPLAY_TARGET = os.path.join(BUILD, "replay")
 WORK = os.path.join(BUILD, "work")
@@ -303,7 +308,42 @@ def classify(h, res):
     return out
 
 
+class MemGate:
+    """Admission control: the address-space caps of the harnesses running at any time sum to at
+    most VERIF_MEM_GB (default 64: the caps are upper bounds that are rarely reached together;
+    the machine has 62 GB and no swap)."""
+
+    def __init__(self, total):
+        import threading
+        self.total, self.used, self.cv = total, 0, threading.Condition()
+
+    def acquire(self, n):
+        n = min(n, self.total)
+        with self.cv:
+            while self.used + n > self.total:
+                self.cv.wait()
+            self.used += n
+        return n
+
+    def release(self, n):
+        with self.cv:
+            self.used -= n
+            self.cv.notify_all()
+
+
+MEM_GATE = MemGate(int(os.environ.get("VERIF_MEM_GB", "64")))
+
+
 def run_harness(h, tier, want_sample=False):
+    cfg = harness_cfg.CFG.get(h["name"], {})
+    got = MEM_GATE.acquire(cfg.get("mem_gb", 8 if tier == "quick" else 20))
+    try:
+        return run_harness_admitted(h, tier, want_sample)
+    finally:
+        MEM_GATE.release(got)
+
+
+def run_harness_admitted(h, tier, want_sample=False):
     cfg = harness_cfg.CFG.get(h["name"], {})
     t0 = time.time()
     rec = dict(name=h["name"], pretty=h["pretty"], prop=h["prop"], tier=h["tier"], unwind=h["unwind"],
@@ -885,8 +925,8 @@ def check(prop, tier, seed, jobs, only=None):
                 cfg = dict(cfg, sat="minisat2")
             tr = get_trace(h, cfg, binary, f["property"], 3600, 20)
             values = draws_of(tr) if tr else None
-            os.makedirs(os.path.join(VERIF, "replay", prop), exist_ok=True)
-            rp = os.path.join(VERIF, "replay", prop, "%s.%s.json" % (rec["name"], hashlib.md5(role.encode()).hexdigest()[:8]))
+            os.makedirs(os.path.join(OUT, "replay", prop), exist_ok=True)
+            rp = os.path.join(OUT, "replay", prop, "%s.%s.json" % (rec["name"], hashlib.md5(role.encode()).hexdigest()[:8]))
             art = dict(property=prop, harness=rec["pretty"], role=role, failing_check=f, values=values,
                        how="VERIF_REPLAY_VALUES=<values> cargo test (cfg verif_replay) --exact <harness>; see engine/run.py replay")
             if values is None:
@@ -941,7 +981,7 @@ def check(prop, tier, seed, jobs, only=None):
 
 
 def write_evidence(prop, tier, seed, recs, build_s, wall, inconclusive=(), known=(), violations=0, validated=0):
-    os.makedirs(os.path.join(VERIF, "evidence"), exist_ok=True)
+    os.makedirs(os.path.join(OUT, "evidence"), exist_ok=True)
     decided = sum(r.get("decided", 0) or 0 for r in recs)
     reached = sum(r.get("harness_asserts_reached", 0) or 0 for r in recs)
     nontrivial = len(set((r["name"], ) for r in recs if not r["inconclusive"] and (r.get("harness_asserts_reached") or 0) > 0))
@@ -985,7 +1025,7 @@ def write_evidence(prop, tier, seed, recs, build_s, wall, inconclusive=(), known
         assumptions=harness_cfg.ASSUMPTIONS.get(prop, []) + harness_cfg.COMMON_ASSUMPTIONS,
         wall_s=round(wall, 1), violations=violations,
     )
-    json.dump(ev, open(os.path.join(VERIF, "evidence", prop + ".json"), "w"), indent=1)
+    json.dump(ev, open(os.path.join(OUT, "evidence", prop + ".json"), "w"), indent=1)
 
 
 def main():
